@@ -94,15 +94,10 @@ macro_rules! dim_impl {
     ($m:ident, $p:ident, $d:expr, $pn:expr, $iso:expr) => {
         pub mod $m {
             use super::*;
-<<<<<<< HEAD
+            use crate::$p::bounding_volume::Aabb;
             use crate::$p::math::{Isometry, Point, Real, Vector};
             use crate::$p::query::{self, PointQuery, Ray, RayCast};
             use crate::$p::shape::{Ball, TopologyError, TriMesh, TriMeshFlags};
-=======
-            use crate::$p::bounding_volume::Aabb;
-            use crate::$p::math::{Point, Real, Vector};
-            use crate::$p::shape::{TopologyError, TriMesh, TriMeshFlags};
->>>>>>> fu2-F11
 
             fn pts(m: &RawMesh) -> Vec<Point<Real>> {
                 m.v.iter().map(|c| Point::from_slice(&c[..])).collect()
@@ -314,7 +309,6 @@ macro_rules! dim_impl {
                 out.join(" ; ")
             }
 
-<<<<<<< HEAD
             // ---------------------------------------------------------- real queries on the final mesh of a history
             fn centroids(m: &TriMesh) -> Vec<Vec<f64>> {
                 let vs = m.vertices();
@@ -423,6 +417,12 @@ macro_rules! dim_impl {
                     let r = match op {
                         RawOp::Sf(f) => catch_unwind(AssertUnwindSafe(|| { let _ = mesh.set_flags(flags(*f)); })),
                         RawOp::Rev => catch_unwind(AssertUnwindSafe(|| mesh.reverse())),
+                        RawOp::Sc(xs) => {
+                            if mesh.indices().is_empty() { Ok(()) } else {
+                                let sc = Vector::<Real>::from_column_slice(&xs[..]);
+                                match catch_unwind(AssertUnwindSafe(|| mesh.clone().scaled(&sc))) { Ok(m2) => { mesh = m2; Ok(()) } Err(e) => Err(e) }
+                            }
+                        }
                         RawOp::Tv(xs) => { let iso = ($iso)(&xs[..]); catch_unwind(AssertUnwindSafe(|| mesh.transform_vertices(&iso))) }
                         RawOp::App(r) => match build(pts(r), r.i.clone(), r.f) {
                             Some(Ok(rhs)) => catch_unwind(AssertUnwindSafe(|| mesh.append(&rhs))),
@@ -453,7 +453,8 @@ macro_rules! dim_impl {
                         st(guard("".into(), || match query::contact(&id, &mesh, &id, &ball, 0.5) { Ok(None) => "none".into(), Ok(Some(_)) => "some".into(), Err(_) => "u".into() })));
                 }
                 match queries(&mesh, &targets) { Ok(s) => s, Err(e) => format!("{} {}", e, header(&mesh)) }
-=======
+            }
+
             /// apply a history without dumping; None = build failure / panic
             pub fn run_ops(m0: &RawMesh, ops: &[RawOp]) -> Option<TriMesh> {
                 let mut mesh = match build(pts(m0), m0.i.clone(), m0.f) { Some(Ok(m)) => m, _ => return None };
@@ -504,7 +505,6 @@ macro_rules! dim_impl {
                 let sp = |p: &Point<Real>| Point::from(p.coords.component_mul(&sc));
                 let b2 = Triangle::new(sp(&pa), sp(&pb), sp(&pc)).local_aabb();
                 format!("{} {}", fbox(&b1), fbox(&b2))
->>>>>>> fu2-F11
             }
         }
     };
@@ -561,15 +561,10 @@ fn scaled3(a: &mut Args) -> String {
 
 pub fn exec(func: &str, a: &mut Args) -> String {
     match func {
-<<<<<<< HEAD
-        "hist3" | "hist3w" => h3::hist(a),
-        "hist2" | "hist2w" => h2::hist(a),
-        "histq3" => h3::histq(a),
-        "histq2" => h2::histq(a),
-=======
         "hist3" | "hist3w" | "hist3s" => h3::hist(a),
         "hist2" | "hist2w" | "hist2s" => h2::hist(a),
->>>>>>> fu2-F11
+        "histq3" => h3::histq(a),
+        "histq2" => h2::histq(a),
         "contains3" => contains3(a),
         "bvhq3" => h3::bvhq(a),
         "bvhq2" => h2::bvhq(a),
@@ -809,7 +804,6 @@ fn gen_contains(r: &mut Rng) -> String {
     s
 }
 
-<<<<<<< HEAD
 /// Two-step histories of the shape "build without a deleting flag, then `set_flags` with deleting flags": a clean base mesh
 /// into which degenerate (repeated index / coincident vertices), duplicate (same, rotated, flipped indices) and
 /// bad-topology (a directed edge used twice) triangles are inserted FIRST, LAST or in the middle of the index buffer.
@@ -861,7 +855,8 @@ fn gen_delete_history(r: &mut Rng, d: usize, k: u64) -> (RawMesh, Vec<RawOp>) {
     let mut ops = vec![RawOp::Sf(del | keep)];
     match r.below(8) { 0 => ops.push(RawOp::Rev), 1 => ops.push(RawOp::Sf(0)), 2 => ops.insert(0, RawOp::Rev), _ => {} }
     (m, ops)
-=======
+}
+
 /// `boxscale`: a triangle (lattice with ties, or random) and a scale of any sign
 fn gen_boxscale(r: &mut Rng, d: usize) -> String {
     let lat = r.bool();
@@ -929,7 +924,6 @@ fn gen_bvhq(r: &mut Rng, d: usize) -> Option<String> {
     s.push_str(&format!(" {}", pts.len()));
     for p in &pts { s.push(' '); s.push_str(&hxs(p.iter())); }
     Some(s)
->>>>>>> fu2-F11
 }
 
 pub fn gen(r: &mut Rng, thorough: bool) -> Vec<(String, String)> {
